@@ -282,7 +282,12 @@ func (s *store) evaluate(caseID string, q0 *Req) {
 		return
 	}
 	what := fmt.Sprintf("%s %s with %s -> %s (status %d, body %q)", rt.Method, rt.Pattern, strings.Join(ab, ","), res.symptom, res.status, clip(string(res.body), 160))
-	r.Violate(sig, what, caseID, s.detail(q, rt, res, ab, minReq))
+	d := s.detail(q, rt, res, ab, minReq)
+	if !s.histShown[sig] { // the store's history once per signature: enough to rebuild the store by hand
+		s.histShown[sig] = true
+		d["store_history_hex"] = s.hist.Hex()
+	}
+	r.Violate(sig, what, caseID, d)
 }
 
 func codeOf(w *httptest.ResponseRecorder) int {
@@ -313,7 +318,7 @@ func (s *store) observe(rt *routeInfo, comps []comp, res result) {
 	}
 	for _, c := range comps {
 		switch c.Class {
-		case "<STALE>", "<ORPHAN>", "<genesis>", "<LONGEST>", "<unknown>":
+		case "<STALE>", "<ORPHAN>", "<ORPHAN-late>", "<genesis>", "<LONGEST>", "<unknown>":
 			if paramKind(c.Name) == "hash" {
 				r.Count("param_hash_"+strings.Trim(c.Class, "<>"), 1)
 			}
@@ -588,14 +593,25 @@ func (s *store) detail(q *Req, rt *routeInfo, res result, ab []string, minReq *R
 	}
 	if minReq != nil {
 		d["minimised_request"] = reqDetail(minReq)
-	}
-	key := res.symptom
-	if rt != nil {
-		key = rt.key() + key
-	}
-	if !s.histShown[key] { // the store's history once per (route, symptom): enough to rebuild the store by hand
-		s.histShown[key] = true
-		d["store_history_hex"] = s.hist.Hex()
+		var l []string
+		if rt != nil && rt.bodyKind == "hashlist" && json.NewDecoder(bytes.NewReader(minReq.Body)).Decode(&l) == nil && len(l) <= 8 {
+			var els []map[string]any
+			for _, h := range l { // what the store holds for each element, walking up to 6 parents
+				chain := []string{}
+				cur := h
+				for i := 0; i < 7; i++ {
+					row, ok := s.rows[cur]
+					if !ok {
+						chain = append(chain, "(not stored)")
+						break
+					}
+					chain = append(chain, fmt.Sprintf("%s height=%d", row.State, row.Height))
+					cur = row.Prev
+				}
+				els = append(els, map[string]any{"hash": h, "self_then_parents": chain})
+			}
+			d["minimised_list_elements"] = els
+		}
 	}
 	return d
 }
